@@ -31,6 +31,7 @@ type Inst struct {
 	Internal  bool     // d.internal or any include on the chain internal
 	Aliases   []string // global alias names
 	AliasFree bool     // flatten together with namespace aliases on the chain: alias set not documented
+	Excluded  bool     // removed by an excludes list on the chain: the name must not exist
 }
 
 // Model is the export of the root Taskfile.
@@ -38,6 +39,7 @@ type Model struct {
 	T      *Tree
 	Root   string
 	Insts  []*Inst
+	Excl   []*Inst // names removed by excludes (must not be callable)
 	ByName map[string]*Inst
 	Ambig  map[string]bool
 	Err    string // "" | cycle | missing | version | duplicate
@@ -77,11 +79,9 @@ func (m *Model) export(f int, stack []int) ([]*Inst, string) {
 		}
 		var def *Inst
 		for _, d := range sub {
-			if has(inc.Excludes, d.Name) {
-				continue
-			}
 			n := &Inst{File: d.File, T: d.T, Internal: d.Internal || inc.Internal, AliasFree: d.AliasFree,
-				Chain: append([]*Inc{inc}, d.Chain...), From: append([]int{f}, d.From...)}
+				Excluded: d.Excluded || has(inc.Excludes, d.Name),
+				Chain:    append([]*Inc{inc}, d.Chain...), From: append([]int{f}, d.From...)}
 			if inc.Flatten {
 				n.Name = d.Name
 				n.Aliases = cp(d.Aliases)
@@ -102,6 +102,13 @@ func (m *Model) export(f int, stack []int) ([]*Inst, string) {
 				if d.Name == "default" {
 					def = n
 				}
+			}
+			if n.Excluded {
+				if def == n {
+					def = nil
+				}
+				out = append(out, n)
+				continue
 			}
 			if names[n.Name] {
 				return nil, "duplicate"
@@ -125,6 +132,15 @@ func NewModel(t *Tree, root string) *Model {
 	if m.Err != "" {
 		m.Insts = nil
 		return m
+	}
+	all := m.Insts
+	m.Insts = nil
+	for _, in := range all {
+		if in.Excluded {
+			m.Excl = append(m.Excl, in)
+		} else {
+			m.Insts = append(m.Insts, in)
+		}
 	}
 	for _, in := range m.Insts {
 		m.ByName[in.Name] = in
